@@ -34,7 +34,9 @@ import NeumannModel.Common.FramedLog
                                        LogEntryFull per snapshot entry (persist_log_entry), then
                                        LogTruncate{from_index: last.index + 1}; only then the log
                                        is replaced in memory.  (`installSnapshotOld` is the code
-                                       before the fix: nothing about the log was logged.)
+                                       before the fix: nothing about the log was logged;
+                                       `installSnapshotTruncateFirst` is the two WAL steps in the
+                                       other order — not the code, a witness of why the order matters.)
   Modelling decisions: node ids are `Nat`; a log entry is `(index, term, cmd)` and its
   `entry_data` is the opaque list `[index, term, cmd]` (bitcode round-trip assumed; checked on
   the real node by the correspondence run); log compaction (`truncate_log`) is an event that only
@@ -423,6 +425,23 @@ def installSnapshotOld (n : Node) (lastTerm : Nat) (ents : List (Nat × Nat)) : 
   let m1 : List Micro := (preHigher n lastTerm n.role).1
   let n1 : Node := (preHigher n lastTerm n.role).2
   { micros := m1 ++ [.ackTerm n1.term], node := { n1 with log := mkEntries 0 ents }, reply := .snapshot true }
+
+/-- `install_snapshot_entries` with its two WAL steps in the OTHER order — NOT the code; kept only for
+    `truncate_first_install_loses_acknowledged_entries_witness`: one `LogTruncate{from_index: first.index}`
+    up front ("retire the old log, the snapshot is a complete set of entries"), then one `LogEntryFull` per
+    snapshot entry.  After a COMPLETE install a restart recovers exactly the log the real order gives, so
+    no crash-free run tells the two apart; between the truncation record and the last re-written entry the
+    durable log is empty or a proper prefix of what the node had already acknowledged. -/
+def installSnapshotTruncateFirst (n : Node) (lastIdx lastTerm : Nat) (ents : List (Nat × Nat)) : StepOut :=
+  let snap := mkEntries 0 ents
+  let m1 : List Micro := (preHigher n lastTerm n.role).1
+  let n1 : Node := (preHigher n lastTerm n.role).2
+  let up : List Micro := match snap.head? with
+    | some first => [.wal (.logTruncate first.index)]
+    | none => []
+  { micros := m1 ++ up ++ (snap.map fun e => WalEntry.logEntryFull e.index e.term (encEntry e)).map Micro.wal
+              ++ [.ackTerm n1.term, .ackLog snap],
+    node := { n1 with log := snap, snapIdx := some lastIdx, base := 0 }, reply := .snapshot true }
 
 
 /-! ### handlers while the WAL rejects every append
